@@ -97,9 +97,10 @@ CLAIMED = {
               "add_leg/remove_leg, tensordot (incl. outer product, full contraction, diagonal operand), vdot, trace, broadcast, diag, hard/meta "
               "fuse+unfuse (norm and values), apply_mask (selection of the masked positions, lazy operand), ncon and einsum (permuted outputs, "
               "three tensors to a number under several orders, conjugated operands, trace inside a network, outer product), and "
-              "blocks+get_legs re-assemble to_numpy."),
+              "blocks+get_legs re-assemble to_numpy. COMPLEX data (entries re + i*im with symbolic parts): conj, the conj= flags of tensordot and vdot, "
+              "lazy operands in vdot, complex scalar multiples, trace, |a|^2 -- real and imaginary parts as separate polynomial identities."),
         design_ref='DESIGN.md §5 C01',
-        note=TRUST + "Part B is complete in the data but bounded in structure (enumerated concrete charges/dimensions, enumerated network shapes); floats treated as reals; complex dtypes not covered.",
+        note=TRUST + "Part B is complete in the data but bounded in structure (enumerated concrete charges/dimensions, enumerated network shapes); floats treated as reals; complex dtypes covered for the conjugation-sensitive operations only.",
         technique='symbolic execution of the real metadata code AND the real NumPy kernels on symbolic real data; polynomial identities decided exactly by sum-of-monomials normal forms (pyvc.poly), otherwise z3 NRA',
     ),
     'C02': dict(
@@ -173,11 +174,13 @@ CLAIMED = {
               "the library's generators (dense, Z2, fermionic Z2 and U1) and ALL tensor entries and norm factors symbolic, measure_overlap, vdot, "
               "measure_mpo (also sums of MPOs), to_tensor, add with amplitudes, +, -, MPO@MPS, MPO@MPO, MPO+MPO and the environments (Env2, "
               "Env_mps_mpo_mps with and without precompute, Env_sum, Env_project: measure at every bond, Heff0/Heff1/Heff2 as multilinear forms, "
-              "refresh after a site changes) equal the independent dense contraction, as polynomial identities decided exactly. BOUNDED (not counted as "
+              "refresh after a site changes) equal the independent dense contraction, as polynomial identities decided exactly; also for COMPLEX tensors "
+              "(bra conjugated, conj / transpose / conjugate_transpose, complex amplitudes), reverse_sites, operators as vectors (Tr(A^+ H B), on_bra: "
+              "Tr(A^+ B H), Env_mpo_mpo_mpo / Env_mpo_mpobra_mpo) and periodic MPOs acting on open states (Env_mps_mpopbc_mps). BOUNDED (not counted as "
               "proved): product states, mps_from_tensor / mpo_from_tensor, zipper and variational compression without truncation, canonical forms, "
               "Schmidt values and reported truncation error against dense NumPy (5 operator families, N = 2..4/5, 1e-9)."),
         design_ref='DESIGN.md §5 C06',
-        note="Trusted: pyvc, z3 (polynomial reals), ghost contracts: block = direct sum, tensordot+fuse_legs = product (tensor level: C01, C03), contraction multilinear. The value part is complete in the data but bounded in structure (enumerated small chains). NOT decided: zipper, variational compression, product states, mps_from_tensor, Env_mpo_mpo_mpo / PBC environments.",
+        note="Trusted: pyvc, z3 (polynomial reals), ghost contracts: block = direct sum, tensordot+fuse_legs = product (tensor level: C01, C03), contraction multilinear. The value part is complete in the data but bounded in structure (enumerated small chains). NOT decided (bounded stand-in only): zipper, variational compression, product states, mps_from_tensor.",
         technique='symbolic execution of the real MPS algebra on ghost tensors (state equality as real-scalar VC + structural comparison) and of the real environment/measurement code on symbolic real data (polynomial identities by normal forms)',
     ),
     'C07': dict(
